@@ -44,6 +44,8 @@ def run(prog, rep):
     rep.rule('R5', 'JSON writer/reader are a matched pair', floor=1)
     rep.rule('R6', 'identity properties are stamped at creation', floor=4)
     rep.rule('R7', 'sentinel values the library writes into JSON properties are skipped by graph validation', floor=2)   # (empty text always counts; was 2 until the '' written by unmerge_adm was replaced by an unset, /repo fix for C14)
+    rep.rule('R8', 'a (re-)import moves the id allocator past the imported nodes on every path', floor=4)
+    nxg.check_allocator_paths(prog, rep, 'R8')
 
     nxi = prog.cls(NXI)
     imod = nxi.module
@@ -118,8 +120,22 @@ def run(prog, rep):
     if n2n_raw is None:
         raise AnalysisError('GraphML.networkx_to_neo4j vanished')
     n2n = inline(prog, gml, n2n_raw)
-    is_src = lambda c: call_name(c) in ('generate_graphml',)
-    is_san = lambda c: call_name(c) == 'networkx_to_neo4j'
+    is_src0 = lambda c: call_name(c) in ('generate_graphml',)
+    is_san0 = lambda c: call_name(c) == 'networkx_to_neo4j'
+    # wrappers: a function of the GraphML helper class all of whose returns are marked-up GraphML text produces clean text
+    clean_wrappers = set()
+    for wname, wfn in gml.methods.items():
+        if wname == 'networkx_to_neo4j':
+            continue
+        try:
+            wres, _ = flow.taint(inline(prog, gml, wfn), is_src0, is_san0)
+        except Exception:
+            continue
+        verdicts = [v for r_, v, _ in wres if isinstance(r_, ast.Return) and v != 'none']
+        if verdicts and all(v == 'clean' for v in verdicts):
+            clean_wrappers.add(wname)
+    is_src = is_src0
+    is_san = lambda c: is_san0(c) or call_name(c) in clean_wrappers
     # every GraphML text serialize_graph returns went through the label markup (value flow on the CFG)
     sgi = inline(prog, nxpg, sg)
     res, _ = flow.taint(sgi, is_src, is_san)
@@ -141,7 +157,7 @@ def run(prog, rep):
     res, _ = flow.taint(w, is_src, is_san, is_sink=lambda c: call_name(c) in ('write', 'writelines'))
     sinks = [(c, v, wit) for c, v, wit in res if isinstance(c, ast.Call)]
     rep.instance('R2', f'nx_write_graphml: written text is {[v for _, v, _ in sinks]}')
-    gen = [c for c in ast.walk(w) if isinstance(c, ast.Call) and is_src(c)]
+    gen = [c for c in ast.walk(w) if isinstance(c, ast.Call) and (is_src(c) or call_name(c) in clean_wrappers)]
     san = [c for c in ast.walk(w) if isinstance(c, ast.Call) and is_san(c)]
     if not sinks or not gen or not san or any(v == 'raw' for _, v, _ in sinks):
         rep.violation('R2', loc(gml.module, w), 'GraphML.nx_write_graphml', 'written text is not the marked-up text', 'the file written must carry the label markup')
